@@ -334,3 +334,147 @@ def run(chk):
                     chk.bad("R6", i.key, i.file, i.line, i.what, i.expected, i.found)
     chk.guard("R6", r6)
     chk.guard("R7", lambda: r7(chk))
+
+    def r8():
+        # the lookups validate.rs calls: their dedicated-then-default contract decides which instruction a rule inspects
+        from .c05 import ACCESSORS, PREDICATES, import_lookup_contracts
+        names = {a for _i, a in ACCESSORS + PREDICATES}
+        from ..tables import ATTR
+        called = {m["method"] for fi in chk.repo.fns(VALIDATE) for m in method_calls(fi.body)}
+        for _ in range(3):  # lookups reached through wrappers of attr.rs (applicable_field_attr -> field_attr)
+            called |= {m["method"] for fi in chk.repo.fns(ATTR) if fi.name in called for m in method_calls(fi.body)}
+        used = sorted(called & names)
+        if len(used) < 5:
+            raise Inconclusive(f"validate.rs calls only {used} of the instruction lookups (>= 5 confirmed by hand)")
+        import_lookup_contracts(chk, "R8", used, with_chain=False, desc="contracts of the instruction lookups that validation rules inspect (dedicated-then-default, per-kind filter)")
+    chk.guard("R8", r8)
+    chk.guard("R9", lambda: r9(chk))
+
+
+# ---------------------------------------------------------------- R9: complete guard sets of the diagnostic emission sites
+def _conjuncts(e, neg=False):
+    """Top-level conjuncts of condition e (negated: De Morgan over ||), each rendered without whitespace."""
+    if not neg and e["k"] == "Binary" and e["op"] == "&&":
+        return _conjuncts(e["l"]) + _conjuncts(e["r"])
+    if neg and e["k"] == "Binary" and e["op"] == "||":
+        return _conjuncts(e["l"], True) + _conjuncts(e["r"], True)
+    if e["k"] == "Unary" and e["op"] == "!":
+        return _conjuncts(e["expr"], not neg)
+    if e["k"] == "LetExpr":
+        from ..src import render_pat
+        t = "let " + render_pat(e["pat"]) + "=" + render(e["expr"])
+        return [("!(" + t + ")" if neg else t).replace(" ", "")]
+    t = render(e).replace(" ", "")
+    if neg:
+        t = "!" + (t if re.fullmatch(r"[\w.:&*]+(\([^()]*\))?", t) else "(" + t + ")")
+    return [t]
+
+
+def _chain_filters(e):
+    """Conditions imposed by the iterator chain e: bodies of .filter(|..| c) closures; other element-dropping adaptors are named."""
+    out = []
+    cur = e
+    while cur is not None and cur["k"] in ("MethodCall", "Ref", "Paren"):
+        if cur["k"] != "MethodCall":
+            cur = cur["expr"]
+            continue
+        m = cur["method"]
+        if m == "filter" and cur["args"] and cur["args"][0]["k"] == "Closure":
+            out += _conjuncts(cur["args"][0]["body"])
+        elif m in ("filter_map", "take_while", "skip_while", "take", "skip", "step_by", "find", "nth", "flat_map") :
+            out.append(f"adaptor:{m}(" + render(cur["args"][0]).replace(" ", "")[:80] + ")" if cur["args"] else f"adaptor:{m}")
+        cur = cur["recv"]
+    return out
+
+
+def guard_sets(fn):
+    """{message-prefix: [sorted conjunct list, ...]} for every errors.insert in fn: if / else / if-let / match-arm conditions plus the
+    filters of every enclosing loop's or closure's iterator chain (the complete path condition of the emission, as a conjunction)."""
+    from ..src import render_pat
+    out = {}
+    for node, parents in walk_with_parents(fn.body):
+        is_insert = node["k"] == "MethodCall" and node["method"] == "insert" and render(node["recv"]).replace(" ", "").lstrip("*") == "errors"
+        # a call that hands the diagnostics map to another validator is an emission site too (its guards are the callee's outer guards)
+        is_call = node["k"] == "Call" and node["func"]["k"] == "Path" and any(render(a).replace(" ", "").replace("&mut", "").lstrip("*") == "errors" for a in node["args"])
+        if not (is_insert or is_call):
+            continue
+        chain = list(parents) + [node]
+        g = []
+        for i, p in enumerate(parents):
+            nxt = chain[i + 1]
+            if p["k"] == "If":
+                if nxt is p["then"]:
+                    g += _conjuncts(p["cond"])
+                elif "else" in p and nxt is p["else"]:
+                    g += _conjuncts(p["cond"], True)
+            elif p["k"] == "Arm":
+                g.append(("arm:" + render_pat(p["pat"])).replace(" ", "")[:90])
+                if "guard" in p:
+                    g += _conjuncts(p["guard"])
+            elif p["k"] == "For" and nxt is p["body"]:
+                g += _chain_filters(p["iter"])
+            elif p["k"] == "While" and nxt is p.get("body"):
+                g += _conjuncts(p["cond"])
+            elif p["k"] == "MethodCall" and nxt["k"] == "Closure" and any(a is nxt for a in p["args"]) and p["method"] in ("for_each", "map", "filter_map", "flat_map", "any", "all", "try_for_each", "inspect"):
+                g += _chain_filters(p["recv"])
+        msg = ""
+        if is_call:
+            msg = "call:" + node["func"]["segs"][-1] + "(" + ",".join(render(a).replace(" ", "")[:24] for a in node["args"][:3])
+            out.setdefault(msg[:64], []).append(sorted(set(g)))
+            continue
+        if node["args"]:
+            a0 = node["args"][0]
+            if a0["k"] == "Macro":
+                m = re.match(r'\s*"((?:[^"\\]|\\.)*)"', a0.get("src", ""))
+                msg = m.group(1) if m else a0.get("src", "")[:40]
+            elif a0["k"] == "MethodCall" and a0["recv"]["k"] == "Lit":
+                msg = str(a0["recv"]["lit"]["v"])
+            else:
+                msg = render(a0)
+        out.setdefault(re.sub(r"\s+", " ", msg)[:48], []).append(sorted(set(g)))
+    return {k: sorted(v) for k, v in out.items()}
+
+
+def r9(chk):
+    import json as _json
+    import os as _os
+    repo = chk.repo
+    chk.rule("R9", "the complete path condition of every diagnostic emission (if / if-let / match-arm conditions and the filters of all enclosing iterations) is the "
+                   "condition that defines its misuse class: an extra conjunct narrows the class (misuse next to some other instruction is no longer reported), "
+                   "a missing one rejects valid input", floor=30)
+    ref_p = _os.path.join(_os.path.dirname(_os.path.dirname(_os.path.abspath(__file__))), "data", "c15_guards.json")
+    with open(ref_p) as fh:
+        ref = _json.load(fh)
+    n = 0
+    for fn_name, sites in sorted(ref.items()):
+        fi = repo.fn_opt(VALIDATE, fn_name)
+        if fi is None:
+            chk.inconc("R9", f"validator {fn_name} not found (renamed or removed)")
+            continue
+        cur = guard_sets(fi)
+        for msg, want_list in sorted(sites.items()):
+            key = f"{fn_name}[{msg}]"
+            got_list = cur.get(msg)
+            if got_list is None:
+                chk.inconc("R9", f"{key}: no emission site with this message in {fn_name} any more (message reworded or moved)")
+                continue
+            if len(got_list) != len(want_list):
+                chk.inconc("R9", f"{key}: {len(got_list)} emission sites, {len(want_list)} confirmed")
+                continue
+            for j, (want, got) in enumerate(zip(want_list, got_list)):
+                n += 1
+                k2 = key + (f"#{j}" if len(want_list) > 1 else "")
+                w, g = set(want), set(got)
+                if w == g:
+                    chk.ok("R9", k2, VALIDATE, fi.line)
+                elif w < g:
+                    chk.bad("R9", k2, VALIDATE, fi.line, "diagnostic is emitted under an additional condition: inputs of this misuse class for which it is false are no longer reported",
+                            expected=sorted(w), found={"extra_conditions": sorted(g - w)})
+                elif g < w:
+                    chk.bad("R9", k2, VALIDATE, fi.line, "a condition of this diagnostic was dropped: inputs outside the misuse class are now rejected",
+                            expected=sorted(w), found={"dropped_conditions": sorted(w - g)})
+                else:
+                    chk.inconc("R9", f"{k2}: guard set changed in a way the rule does not order (neither narrower nor wider): -{sorted(w - g)[:3]} +{sorted(g - w)[:3]}")
+        for msg in sorted(set(cur) - set(sites)):
+            chk.inconc("R9", f"{fn_name}[{msg}]: emission site not in the confirmed table")
+    chk.unit("emission_sites_with_guard_sets", n)
